@@ -520,7 +520,9 @@ fn get_tests(testing: &syn::File) -> R {
                 lines.push(format!(" let {} := {v}", pi.ident));
             }
             Stmt::Expr(Expr::MethodCall(mc), Some(_))
-                if mc.method == "sort" && mc.args.is_empty() =>
+                // `sort_unstable` on strings: the order is total and equal keys are equal strings,
+                // so stability cannot be observed
+                if (mc.method == "sort" || mc.method == "sort_unstable") && mc.args.is_empty() =>
             {
                 let Expr::Path(p) = &*mc.receiver else {
                     return Err("get_tests: sort on a non-variable".into());
